@@ -112,6 +112,41 @@ pub fn shrink(trace: &Trace, key: &str, ctx: &Arc<ExecCtx>, max_execs: usize, ma
             }
         }
     }
+    // shrink the expressions: structural reductions of each set_mathml argument (remove an element, replace it by a
+    // child or by a plain token, drop attributes) while the same violation persists
+    for session in 0..best.sessions.len() {
+        for k in 0..best.sessions[session].len() {
+            let Step::Call(Op::SetMathml(e)) = &best.sessions[session][k] else { continue };
+            let Some(mut cur) = crate::exec::static_expr(e) else { continue };
+            if !cur.trim_start().starts_with("<math") || crate::mml::parse(&cur).is_none() {
+                continue;
+            }
+            let mut progress = true;
+            let mut literal = matches!(e, ExprRef::Lit(_));
+            while progress && budget_left(execs) {
+                progress = false;
+                for cand in crate::mml::reductions(&cur) {
+                    if !budget_left(execs) {
+                        break;
+                    }
+                    if cand.len() >= cur.len() {
+                        continue;
+                    }
+                    let mut c = best.clone();
+                    c.sessions[session][k] = Step::Call(Op::SetMathml(ExprRef::Lit(cand.clone())));
+                    execs += 1;
+                    if reproduces(&c, key, ctx) {
+                        best = c;
+                        cur = cand;
+                        literal = true;
+                        progress = true;
+                        break;
+                    }
+                }
+            }
+            let _ = literal;
+        }
+    }
     // simplify the world
     if budget_left(execs) && (best.world.dir_order.is_some() || best.world.lib_rand_repeat > 0.0) {
         let mut c = best.clone();
